@@ -87,16 +87,28 @@ P = {
        "driver threads the true state only after successful evaluations); wrong-arity calls are outside 'well-formed'.",
   ref="DESIGN.md section 5 C09, section 0"),
  "C13": dict(
-  text="21 Lean theorems about the executable model of tracelog (entry lists with explicit backing-array aliasing, the group/"
-       "needBar/stack walk, sync and buffered delivery) and multilog (fan-out with recovery): format_spec, one_write_per_record, "
-       "stack_lines_follow, derive_isolated (parent and siblings), buffered_never_blocks / drop_only_when_full / "
-       "no_dup_no_tear over every schedule of the bounded FIFO, fanout_each_enabled_once, fanout_nil_iff_all_ok, "
-       "fanout_errors_collected, with_applies_to_all. Derivation trees and scripted children are run against the Go code.",
-  note="the schedule clauses (no interleaving of concurrent records, per-goroutine order, real non-blocking) are NOT proved: "
-       "observed by a -race stress oracle; leaf renderings (%q, RFC3339, Value.String) and stack text are tokens taken from "
-       "stdlib/errs; a stack is printed as lines only from a top-level stack attribute with no group in force (reading, "
-       "Appendix B).",
-  ref="DESIGN.md section 5 C13"),
+  text="34 Lean theorems. tracelog: the bytes of a record proved equal to a declarative line specification (format_spec, "
+       "format_flat, stack_lines_follow), derivation isolation (WithAttrs/WithGroup never affect the parent; the append-in-place "
+       "variant is refuted); SYNCHRONOUS mode proved linearizable under every schedule by instantiating the generic mutex "
+       "machine (sync_records_never_interleave, sync_preserves_goroutine_order, sync_returns_sink_error; without the lock "
+       "\"ab\" and \"cd\" reach the sink as \"acbd\"); BUFFERED mode proved on a small-step protocol (N producers, one delivery "
+       "goroutine, channel of capacity BufferDepth, any scheduler): buffered_never_blocks (a Handle call is two of its own "
+       "steps, always enabled), buffered_no_tear_no_dup, buffered_drop_only_when_full, per-producer FIFO, "
+       "buffered_payload_stable (buffer.Bytes() as a reference read at Write time: a fresh buffer per call is what makes the "
+       "queued line immutable; a reused buffer is refuted). multilog: fan-out to exactly the enabled children once, "
+       "fanout_survives_panics in a propagating-panic semantics (a recover frame around the whole loop is refuted), "
+       "handle_nil_iff_heap (the returned value is nil exactly when every delivery returned no error - proved on the errs heap, "
+       "typed nils and aggregates included), children's error values never modified (handle_keeps_child_errors). Ties: log "
+       "histories over derivation trees with scripted children returning errors of 26 dynamic kinds; sched scripts (forced "
+       "schedules with a controllable sink: the real outcome must be in the set the model computes); a -race stress oracle.",
+  note="that the code IS these protocols (no lock on the buffered path, exactly one select, the lock held across exactly the "
+       "sink's Write) is carried by the ties, not proved; isolation, no-tear and fan-out-continues hold by the shape of the "
+       "transcribed code, with contrast variants showing each failure is expressible; stack-trace lines follow only when no "
+       "WithGroup is in force (reading, Appendix B); 'one line' holds unless the message, keys, group names or non-string "
+       "values contain a line feed, which the code writes raw (reading, Appendix B); a sink panic in the buffered delivery "
+       "goroutine is unrecovered (the process dies; modelled as a dead consumer); leaf renderings (%q, RFC3339, Value.String) "
+       "and stack text are tokens taken from stdlib/errs.",
+  ref="DESIGN.md section 5 C13, section 0"),
  "C14": dict(
   text="34 Lean theorems over a syscall-level action model of safe.WriteFile/safe.File including CreateWithMode's name check "
        "(filepath.Clean/Dir transcribed), CreateTemp's naming and O_EXCL retry loop (random numbers as a parameter stream, at "
